@@ -322,3 +322,125 @@ func c16nameIndexIgnoresUID(c *Ctx) {
 	r.Check(bad == "", "PATH", key, c.Pos(fn.Pos()), sprintf("%d name match(es) independent of the recorded UID", n),
 		"the name fallback only counts jobs with a particular UID ("+bad+"): a live job of a pod that was re-created under the same name is not seen, the new pod gets a second job and is not counted against the per-node cap")
 }
+
+// c05updateIsRemoveThenAdd: reservationCache.updatePod is "take the old version out, put the new
+// version in". The informer calls it for every update of an assigned pod, also when old and new name
+// the same reservation - so whatever the removal half takes out the add half must put back. Decided:
+// AddAssignedPod and RemoveAssignedPod are guarded by nil tests only (the record exists, the pod
+// object exists). A state predicate of the reservation on the add half (terminating, unavailable,
+// not matchable ...) makes a pod that is removed and re-added by a plain resync disappear from the
+// reservation's ledger: Allocated drops to zero while the pod is still running on it.
+func c05updateIsRemoveThenAdd(c *Ctx) {
+	r := c.R
+	r.Rule("MIRROR(update = remove + add): in reservationCache.updatePod the calls RemoveAssignedPod(old) and AddAssignedPod(new) are guarded by nil tests only - no state predicate of the reservation decides whether the new version is put back")
+	fn := c.Fn(resvPkg, "reservationCache", "updatePod")
+	if fn == nil {
+		return
+	}
+	n := 0
+	for _, cl := range an.Calls(fn, false) {
+		sn := an.ShortCallee(cl.Common())
+		if sn != "AddAssignedPod" && sn != "RemoveAssignedPod" {
+			continue
+		}
+		n++
+		bad := ""
+		for _, g := range an.Guards(cl) {
+			bo, ok := g.Cond.(*ssa.BinOp)
+			if ok && (an.IsNilConst(bo.X) || an.IsNilConst(bo.Y)) {
+				continue
+			}
+			bad = an.Path(g.Cond)
+		}
+		r.Check(bad == "", "MIRROR", sprintf("%s/%s/nil-guards-only", fkey(fn), sn), c.InstrPos(cl), "guarded by existence of the record and of the pod object only",
+			sn+" is additionally guarded by "+bad+": an update event (which removes the old version first) no longer puts the pod back, and the reservation's Allocated/AssignedPods lose a pod that is still running")
+	}
+	r.Floor("MIRROR", "Add/RemoveAssignedPod calls in reservationCache.updatePod", n, 2)
+}
+
+// quotaAssignByState: when OnPodUpdate finds a pod that is in the quota's cache but not yet marked
+// assigned, it marks it assigned because the NEW object is bound and not terminated - a statement
+// about the present, not about the transition old -> new. The first event of a bound pod that the
+// manager can act on is not necessarily the binding update (the pod was delivered before its quota
+// existed and the add was dropped; the next event is a heartbeat with the same node in old and
+// new). Decided: no guard of updatePodIsAssignedNoLock(.., true) in OnPodUpdate reads the old pod.
+func quotaAssignByState(c *Ctx) {
+	r := c.R
+	r.Rule("LEVEL(assign by state, not by transition): in GroupQuotaManager.OnPodUpdate no condition that guards updatePodIsAssignedNoLock(.., true) reads the old pod object")
+	fn := c.Fn(quotaCorePkg, "GroupQuotaManager", "OnPodUpdate")
+	if fn == nil {
+		return
+	}
+	var old *ssa.Parameter
+	for _, p := range fn.Params {
+		if p.Name() == "oldPod" {
+			old = p
+		}
+	}
+	if old == nil && len(fn.Params) == 5 {
+		old = fn.Params[4]
+	}
+	key := fkey(fn) + "/assign-independent-of-old-object"
+	if old == nil {
+		r.Unknown("LEVEL", key, c.Pos(fn.Pos()), "cannot identify the old-pod parameter")
+		return
+	}
+	n, bad := 0, ""
+	for _, cl := range an.Calls(fn, false) {
+		if an.ShortCallee(cl.Common()) != "updatePodIsAssignedNoLock" {
+			continue
+		}
+		args := cl.Common().Args
+		if len(args) == 0 || !isTrueConst(args[len(args)-1]) {
+			continue
+		}
+		n++
+		for _, cond := range influencingConds(cl) {
+			for x := range backwardAll(cond) {
+				// reads the old object's content (a bare nil test of the parameter is not a read)
+				if fa, ok := x.(*ssa.FieldAddr); ok && fa.X == ssa.Value(old) {
+					bad = sprintf("%s depends on %s", c.InstrPos(cl), an.Path(cond))
+				}
+			}
+		}
+	}
+	if n == 0 {
+		r.Unknown("LEVEL", key, c.Pos(fn.Pos()), "expected updatePodIsAssignedNoLock(.., true) calls in OnPodUpdate")
+		return
+	}
+	r.Check(bad == "", "LEVEL", key, c.Pos(fn.Pos()), sprintf("%d assign site(s) decided by the new object alone", n),
+		"a bound pod is marked assigned only on the binding transition ("+bad+"): a pod whose first usable event is a later update (delivered before its quota existed) enters the cache with its request but never counts as used - the live scheduler and a restarted one disagree about the free quota")
+}
+
+// influencingConds: the conditions of the branches that decide whether site is reached: every If of
+// which exactly one successor leads to the site's block. A superset of the dominating guards - it
+// also sees the operands of a disjunction (a || b), neither of which dominates alone. Meant for
+// loop-free functions (inside a loop every branch reaches everything; the caller then gets the
+// dominating guards only).
+func influencingConds(site ssa.Instruction) []ssa.Value {
+	sb := site.Block()
+	var out []ssa.Value
+	seen := map[ssa.Value]bool{}
+	for _, g := range an.Guards(site) {
+		if !seen[g.Cond] {
+			seen[g.Cond] = true
+			out = append(out, g.Cond)
+		}
+	}
+	for _, b := range sb.Parent().Blocks {
+		ifi, ok := b.Instrs[len(b.Instrs)-1].(*ssa.If)
+		if !ok || len(b.Succs) != 2 {
+			continue
+		}
+		t := b.Succs[0] == sb || an.ForwardReachBlocks(b.Succs[0])[sb]
+		f := b.Succs[1] == sb || an.ForwardReachBlocks(b.Succs[1])[sb]
+		if t != f {
+			cond, _ := an.StripNot(ifi.Cond)
+			if !seen[cond] {
+				seen[cond] = true
+				out = append(out, cond)
+			}
+		}
+	}
+	return out
+}
